@@ -282,6 +282,49 @@ def oracle(p):
     return {"fails": fails, "counts": counts}
 
 
+def rounding_stress(p):
+    """valid derivations must never fail an internal consistency check because of rounding: many cheap
+    derivations on grids chosen to provoke float32 cancellation (origin components near zero: centred at or
+    near the world origin, arbitrary rotation angles, non-dyadic spacings, and far-away centres)"""
+    import math
+    rng = random.Random(p["seed"] + 77)
+    fails, n_ops = [], 0
+    for it in range(p["n"]):
+        D = 2 if rng.random() < .6 else 3
+        size = [rng.randint(4, 64) for _ in range(D)]
+        spacing = [round(rng.uniform(0.2, 4.0), 2) for _ in range(D)]
+        kind = rng.random()
+        if kind < .5:
+            center = [0.0] * D
+        elif kind < .75:
+            center = [rng.uniform(-1, 1) for _ in range(D)]
+        else:
+            center = [rng.choice([-1, 1]) * rng.uniform(50, 5e3) for _ in range(D)]
+        if D == 2:
+            a = rng.uniform(-math.pi, math.pi)
+            d = [[math.cos(a), -math.sin(a)], [math.sin(a), math.cos(a)]]
+        else:
+            d = rand_dir(rng, 3)
+        gd = dict(size=size, spacing=spacing, center=center, direction=d, align_corners=rng.random() < .7)
+        try:
+            g = mk(gd)
+        except Exception:
+            continue
+        n = [int(v) for v in g.size()]
+        ops = [{"op": "resize", "size": [rng.randint(2, 80) for _ in range(D)], "ac": rng.choice([None, True, False])},
+               {"op": "down", "levels": 1, "min_size": 1, "ac": rng.choice([None, True]), "dims": None},
+               {"op": "up", "levels": 1, "ac": rng.choice([None, True]), "dims": None},
+               {"op": "pyr", "levels": 2 if min(n) >= 8 else 1, "level": 1, "min_size": 0, "dims": None}]
+        for op in ops:
+            n_ops += 1
+            try:
+                apply(g, op)
+            except Exception as e:  # noqa
+                fails.append({"key": f"C03:{op['op']}:raises:{type(e).__name__}", "what": f"valid derivation raises {type(e).__name__}: {str(e)[:80]}",
+                              "grid": gd, "chain": [op]})
+    return {"fails": fails, "ops": n_ops}
+
+
 if __name__ == "__main__":
     payload = json.load(sys.stdin)
-    emit_json({"run_chains": run_chains, "gen_chains": gen_chains, "oracle": oracle}[payload["fn"]](payload))
+    emit_json({"run_chains": run_chains, "gen_chains": gen_chains, "oracle": oracle, "rounding_stress": rounding_stress}[payload["fn"]](payload))
